@@ -101,6 +101,26 @@ CHECKS["C01"] = dict(
          "imports (C10), document(), format-number, output escaping control. Cases whose definition value leaves the number model or is a dynamic error are not judged.",
     technique="TLA+ executable semantics of XSLT evaluated by TLC; trace validation of recorded result trees")
 
+CHECKS["C07"] = dict(
+    category="model_checking", design_ref="DESIGN.md §5 C07",
+    text="TLC explores every interleaving of 2-3 threads of the sharing protocol (Sharing.tla / SharingImpl.tla: frozen objects, lazy fields, locks), including the expected "
+         "counterexamples (on-demand bridge nodes, the lazily allocated list sentinel, the pool without mutex) that show RaceFree is not vacuous. The race condition is made "
+         "schedule-independent in the real library: shared objects are built inside one mmap arena that is then made read-only; every store into it by any thread is trapped "
+         "(SIGSEGV handler, single-step, re-protect) together with the thread's held-mutex count (interposed pthread_mutex_*), and TLC validates the recorded stores and the "
+         "per-thread output hashes against the protocol rules.",
+    note="Not observed: stores outside the arena (C++ statics, ICU, Xerces' own heap), reads (read-only races), and which mutex is held (any mutex counts). Trusted: TLC, "
+         "glibc backtrace/dladdr call-site keys on the -O1 build, Linux mprotect/trap-flag semantics.",
+    technique="TLA+ sharing protocol model-checked over all interleavings + TLC trace validation of trapped post-freeze stores (schedule-independent race detection)")
+CHECKS["C19"] = dict(
+    category="fault_enumeration", design_ref="DESIGN.md §5 C19",
+    text="MemMgr.tla is the memory-manager contract (blocks of the supplied manager, process-level blocks of initialize(), one refused request, no foreign/double free, "
+         "nothing live at destroy/shutdown, failure surfaces, discard + fresh transformer works). TLC model-checks it with vacuity guards and the lazy list-sentinel root cause; "
+         "then every index k of allocate() is made the refused one, per scenario (compile, parse, transform from files/streams/compiled+parsed, failing transformations, reuse, "
+         "initialize/terminate on the supplied manager), each in its own process, and TLC validates every execution's run-compressed Alloc/Free stream and outcome.",
+    note="Trusted: TLC, harness/c19.cpp (fixed-address arena manager, ASLR off for determinism), backtrace/dladdr/c++filt for call-site keys, ASan/UBSan for a sample. "
+         "Known findings are keyed by the semantic call site (top three library frames) of the std::terminate / signal, never by allocation index.",
+    technique="TLA+ contract (TLC) + exhaustive fault enumeration over allocation indices, process per fault, each execution validated by TLC")
+
 NOT_YET = {
 }
 
